@@ -166,6 +166,7 @@ type Path struct {
 	Trace   []string
 	Depth   int
 	Facts   map[string]Term // atoms assumed on this path (folding)
+	Ghosts  map[string]Value // call-site ghosts: results of designated calls
 	CutSeen map[string]bool
 }
 
@@ -178,6 +179,12 @@ func (p *Path) clone() *Path {
 	}
 	for k, v := range p.CutSeen {
 		q.CutSeen[k] = v
+	}
+	if p.Ghosts != nil {
+		q.Ghosts = make(map[string]Value, len(p.Ghosts))
+		for k, v := range p.Ghosts {
+			q.Ghosts[k] = v
+		}
 	}
 	for k, v := range p.Vars {
 		q.Vars[k] = v
@@ -342,6 +349,9 @@ func (u *Universe) sortOfType(t types.Type) string {
 			return SErr
 		}
 	}
+	if isOptionList(t) {
+		return STag // abstraction: a report option list is represented by the language it selects
+	}
 	switch ut := t.Underlying().(type) {
 	case *types.Basic:
 		switch {
@@ -364,8 +374,23 @@ func (u *Universe) sortOfType(t types.Type) string {
 		if t.String() == "error" {
 			return SErr
 		}
+		if t.String() == "io.Reader" {
+			return SReader
+		}
+		if ut.NumMethods() == 0 {
+			return SInt // an empty-interface value is represented by the identity of the (pointer) value it holds
+		}
 	}
 	return SOpaque
+}
+
+func isOptionList(t types.Type) bool {
+	sl, ok := t.Underlying().(*types.Slice)
+	if !ok {
+		return false
+	}
+	n, ok := sl.Elem().(*types.Named)
+	return ok && n.Obj().Name() == "ReportOptionsFunc"
 }
 
 func isStringBoolMap(m *types.Map) bool {
@@ -390,6 +415,8 @@ func zeroTerm(sort string) Term {
 		return f64PosZero
 	case SErr:
 		return errNil
+	case SReader:
+		return Term{S: "nil_reader", Sort: SReader, C: "reader:nil"}
 	}
 	return Term{S: "0", Sort: sort}
 }
@@ -623,7 +650,9 @@ func (c *Ctx) pkgVarValue(p *Path, o *types.Var, pos token.Pos) Value {
 	}
 	if o.Pkg().Path() == "golang.org/x/text/language" {
 		name := "Tag_" + o.Name()
-		c.declare(name, STag)
+		if _, inPrelude := c.U.Specs[name]; !inPrelude {
+			c.declare(name, STag)
+		}
 		c.AxiomsUsed["A7"] = true
 		return Term{S: name, Sort: STag, C: "tag:" + o.Name()}
 	}
@@ -649,6 +678,7 @@ func (fr *frame) fieldHop(p *Path, base Value, baseT types.Type, f *types.Var, p
 	p.safety("nil-deref", tNot(tEq(ref, mkInt(0))), pos)
 	key := fieldKey(st, f)
 	ft := f.Type()
+	srt := c.U.sortOfType(ft)
 	switch ut := ft.Underlying().(type) {
 	case *types.Map:
 		if !isStringBoolMap(ut) {
@@ -656,10 +686,11 @@ func (fr *frame) fieldHop(p *Path, base Value, baseT types.Type, f *types.Var, p
 			return OpaqueVal{"mapfield"}, ft
 		}
 	case *types.Slice, *types.Struct, *types.Array, *types.Chan, *types.Signature:
-		c.untranslatable(pos, "field of unmodelled type "+key)
-		return OpaqueVal{"field"}, ft
+		if srt == SOpaque {
+			c.untranslatable(pos, "field of unmodelled type "+key)
+			return OpaqueVal{"field"}, ft
+		}
 	}
-	srt := c.U.sortOfType(ft)
 	if srt == SOpaque {
 		c.untranslatable(pos, "field of unmodelled type "+key)
 		return OpaqueVal{"field"}, ft
@@ -843,7 +874,7 @@ func (c *Ctx) binop0(op token.Token, a, b Term, pos token.Pos) Value {
 		case token.LOR:
 			return tOr(a, b)
 		}
-	case SErr, STag:
+	case SErr, STag, SReader:
 		switch op {
 		case token.EQL:
 			return tEq(a, b)
@@ -1305,8 +1336,20 @@ func (fr *frame) finish(p *Path, vals []Value) {
 	// untyped nil returned as an error value
 	if fr.fi != nil && fr.fi.Sig.Results().Len() == len(vals) {
 		for i, v := range vals {
-			if t, ok := v.(Term); ok && t.Sort == SInt && t.C == int64(0) && p.C.U.sortOfType(fr.fi.Sig.Results().At(i).Type()) == SErr {
+			rs := p.C.U.sortOfType(fr.fi.Sig.Results().At(i).Type())
+			if t, ok := v.(Term); ok && t.Sort == SInt && t.C == int64(0) && rs == SErr {
 				vals[i] = errNil
+			}
+			if t, ok := v.(Term); ok && t.Sort == SInt && t.C == int64(0) && rs == SReader {
+				vals[i] = zeroTerm(SReader)
+			}
+			if b, ok := v.(*BuilderVal); ok && rs == SReader {
+				r := app(SReader, "mk_reader", b.Content)
+				// (A6/A4) a buffer seen as io.Reader: non-nil, delivers exactly its content
+				p.assume(tEq(app(SStr, "reader_content", r), b.Content))
+				p.assume(tNot(tEq(r, zeroTerm(SReader))))
+				p.assume(app(SBool, "reader_ok", r))
+				vals[i] = r
 			}
 		}
 	}
@@ -1740,6 +1783,28 @@ func (fr *frame) execRange(p *Path, s *ast.RangeStmt) []*Path {
 			out = append(out, fr.rangeTable(xv.P, s, x)...)
 		case *SliceVal:
 			out = append(out, fr.rangeSlice(xv.P, s, x)...)
+		case *VariadicVal:
+			if x.Symbolic {
+				c.untranslatable(s.Pos(), "range over symbolic variadic parameter")
+				out = append(out, xv.P)
+				continue
+			}
+			ps := []*Path{xv.P}
+			for _, el := range x.Elems {
+				var next []*Path
+				for _, q := range ps {
+					if s.Value != nil {
+						if id, ok := s.Value.(*ast.Ident); ok && id.Name != "_" {
+							if obj, ok := fr.info.Defs[id].(*types.Var); ok {
+								q.Vars[obj] = el
+							}
+						}
+					}
+					next = append(next, fr.execStmt(q, s.Body)...)
+				}
+				ps = next
+			}
+			out = append(out, ps...)
 		default:
 			c.untranslatable(s.Pos(), fmt.Sprintf("range over %T", xv.V))
 			out = append(out, xv.P)
